@@ -4,6 +4,7 @@
 // attached to operations. Profiles select the op mix and the oracles:
 //   ownership (C12)  conversion (C05)  roundtrip (C06)  portability (C07)  ub (C15)
 #include <algorithm>
+#include <cerrno>
 #include <cfenv>
 #include <cmath>
 #include <cstdio>
@@ -48,12 +49,13 @@ enum OpKind : int {
     OP_LOOKUP,
     OP_WRAP,
     OP_LOAD_TWO,
+    OP_SWAP,
     OP_NKINDS
 };
 const char *const OP_NAMES[OP_NKINDS] = {"Construct", "DefaultCtor", "Write",  "CopyCtor",   "MoveCtor",
                                          "CopyAssign", "MoveAssign", "ConvertCopy", "ConvertMove", "Dump",
                                          "Load",      "LoadAssign", "Redump", "Destroy",    "Lookup", "Wrap",
-                                         "LoadTwo"};
+                                         "LoadTwo",   "Swap"};
 enum FaultKind : int { F_NONE, F_ALLOC, F_EOF, F_IOTHROW, F_TEAR, F_CUDA, F_NKINDS };
 const char *const FAULT_NAMES[F_NKINDS] = {"none", "alloc", "eof", "iothrow", "tear", "cuda"};
 
@@ -79,6 +81,7 @@ struct Plan {
     int seek = 0; // the input stream can be positioned (a file) or not (a pipe)
     int fe = 0; // sticky floating-point exception flags (FE_* mask) the thread already carries when each operation starts
     int index = -1; // premain profile: which of the fixed pre-main plans this is
+    int en = 0; // value errno already holds when each operation starts (left over from an earlier, unrelated call)
     std::vector<Op> ops;
 };
 
@@ -89,7 +92,7 @@ std::string plan_text(const Plan &p)
     o << "world hist\n";
     o << "run property=" << p.property << " profile=" << p.profile << " seed=" << p.seed << " nslots=" << p.nslots
       << " getbuf=" << p.getbuf << " putbuf=" << p.putbuf << " exc=" << p.exc << " vmode=" << p.vmode
-      << " nice=" << p.nice << " pre=" << p.pre << " post=" << p.post << " seek=" << p.seek << " fe=" << p.fe << " index=" << p.index << "\n";
+      << " nice=" << p.nice << " pre=" << p.pre << " post=" << p.post << " seek=" << p.seek << " fe=" << p.fe << " index=" << p.index << " en=" << p.en << "\n";
     for (auto &op : p.ops) {
         o << "op " << OP_NAMES[op.kind] << " a=" << op.a << " b=" << op.b;
         if (op.stack >= 0)
@@ -163,6 +166,8 @@ bool parse_plan(std::istream &is, Plan &p, std::string &expect)
                     p.fe = std::atoi(v.c_str());
                 else if (k == "index")
                     p.index = std::atoi(v.c_str());
+                else if (k == "en")
+                    p.en = std::atoi(v.c_str());
             }
             continue;
         }
@@ -219,6 +224,7 @@ struct Slot {
     int stack = -1;
     void *obj = nullptr;
     ModelField model;
+    void *view = nullptr; // a field_view of this field that is kept across operations
 };
 struct SimFile {
     bool present = false;
@@ -271,8 +277,15 @@ struct World {
     {
         return std::aligned_alloc(std::max<size_t>(o.obj_align, 16), (o.obj_size + 63) / 64 * 64 + 64);
     }
+    void drop_view(Slot &s)
+    {
+        if (s.view && s.stack >= 0 && ops_of(s.stack).release_view)
+            ops_of(s.stack).release_view(s.view);
+        s.view = nullptr;
+    }
     void destroy_slot(Slot &s)
     {
+        drop_view(s);
         if (s.state != S_EMPTY && s.obj) {
             ops_of(s.stack).destroy(s.obj);
             std::free(s.obj);
@@ -469,6 +482,14 @@ struct World {
             prog->stack = (uint64_t)(pst + 1);
         }
         const char *name = OP_NAMES[op.kind];
+        // a kept view holds raw pointers into its field: it survives writes, lookups and dumps of
+        // that field and nothing else (copies FROM the field leave it valid too, but are rare)
+        if (op.kind != OP_WRITE && op.kind != OP_LOOKUP && op.kind != OP_DUMP && op.kind != OP_REDUMP) {
+            drop_view(A);
+            drop_view(B);
+            if (op.kind == OP_LOAD_TWO)
+                drop_view(slots[(a + 1) % ns]);
+        }
         std::string what;
         bool fired = false;
         int src_slot = -1;
@@ -478,6 +499,7 @@ struct World {
         std::feclearexcept(FE_ALL_EXCEPT);
         if (plan.fe)
             std::feraiseexcept(plan.fe & FE_ALL_EXCEPT);
+        errno = plan.en; // likewise errno: whatever an earlier system call of this thread left there
         auto expect_no_throw = [&](int rc, int stack) {
             if (rc && !fired) {
                 violate(opi, "unexpected-throw", stack, name, what);
@@ -632,6 +654,31 @@ struct World {
                 } while (plan.property == "C08" && bits_look_like_format_word(bits[j], d.storage));
                 A.model.vals[cell * d.M + j] = bits[j];
             }
+            // Half of the writes are watched through a view that exists before the write and is
+            // used again after it: look up the cell, write it, look it up again through the SAME
+            // view - the second answer must be the new value (a lookup path that remembers what
+            // it saw last time shows here and nowhere else).
+            std::vector<double> wx;
+            ChainResult wcr;
+            bool watched = false;
+            if (ops_of(A.stack).hold_view && ((op.vseed >> 11) & 1) && !fired) {
+                Rng r3(mix64(op.vseed, 78));
+                if (sample_lookup(d, A.model, r3, wx, c.data())) {
+                    wcr = chain_domain(d, A.model, wx.data());
+                    watched = wcr.in_domain && wcr.exact && !wcr.defaulted;
+                }
+            }
+            uint64_t before[8] = {0}, after[8] = {0};
+            if (watched) {
+                if (!A.view)
+                    A.view = ops_of(A.stack).hold_view(A.obj);
+                std::string w0;
+                bool f0 = false;
+                if (guarded(op, [&] { ops_of(A.stack).held_lookup(A.view, wx.data(), before, false); }, w0, f0) && !f0) {
+                    violate(opi, "unexpected-throw", A.stack, name, w0);
+                    return;
+                }
+            }
             int rcode = guarded(op, [&] { ops_of(A.stack).write_cell(A.obj, c.data(), bits); }, what, fired);
             executed = true;
             ++mutating;
@@ -639,6 +686,44 @@ struct World {
                 cnt.inc("probe.write_through_view");
             if (!expect_no_throw(rcode, A.stack))
                 return;
+            if (watched) {
+                std::string w1;
+                bool f1 = false;
+                if (guarded(op, [&] { ops_of(A.stack).held_lookup(A.view, wx.data(), after, false); }, w1, f1) && !f1) {
+                    violate(opi, "unexpected-throw", A.stack, name, w1);
+                    return;
+                }
+                cnt.inc("probe.write_watched_through_a_kept_view");
+                Scal os = d.layers[0].out_scal;
+                int od = d.layers[0].out_dims;
+                uint64_t want[8] = {0};
+                bool have = false;
+                if ((int)wcr.cell.size() == d.N && d.N > 0) {
+                    size_t lin = 0;
+                    for (int k = 0; k < d.N; ++k)
+                        lin = lin * A.model.ext[k] + (size_t)wcr.cell[k];
+                    for (int j = 0; j < d.M; ++j)
+                        want[j] = A.model.vals[lin * d.M + j];
+                    have = true;
+                } else
+                    have = linear_node_expectation(d, A.model, wcr, want);
+                if (have && scal_is_float(os) && scal_is_float(d.storage)) {
+                    for (int j = 0; j < d.M && j < od; ++j) {
+                        bool judged = false;
+                        double w = d.storage == SC_F32 ? (double)bits_f32(want[j]) : bits_f64(want[j]);
+                        if (std::isnan(w))
+                            continue;
+                        if (!same_value_modulo_zero_sign(after[j], os, want[j], d.storage, judged)) {
+                            std::ostringstream o2;
+                            o2 << "a view that existed before the write still answers 0x" << std::hex << after[j] << " for component " << std::dec << j
+                               << " of the cell just written; the field holds 0x" << std::hex << want[j];
+                            violate(opi, "value-mismatch", A.stack, name, o2.str());
+                            return;
+                        }
+                    }
+                    cnt.inc("lookup.after_write_compared_with_model");
+                }
+            }
             break;
         }
         case OP_COPY_CTOR: {
@@ -1197,6 +1282,24 @@ struct World {
             }
             break;
         }
+        case OP_SWAP: {
+            // using std::swap; swap(a, b); - whatever overload argument-dependent lookup finds
+            if (A.state != S_LIVE || B.state != S_LIVE || a == b || A.stack != B.stack || !ops_of(A.stack).swap_adl)
+                break;
+            int rcode = guarded(op, [&] { ops_of(A.stack).swap_adl(A.obj, B.obj); }, what, fired);
+            executed = true;
+            if (rcode) {
+                A.state = S_INDET;
+                B.state = S_INDET;
+                if (!expect_no_throw(rcode, A.stack))
+                    return;
+            } else {
+                std::swap(A.model, B.model);
+                ++mutating;
+                cnt.inc("probe.fields_exchanged_with_swap");
+            }
+            break;
+        }
         case OP_DESTROY: {
             if (A.state == S_EMPTY)
                 break;
@@ -1225,12 +1328,20 @@ struct World {
                 break;
             }
             uint64_t bits[8] = {0};
-            // half of the lookups use the at(x, y, z) form of the view, half at(coordinate_t)
+            // half of the lookups use the at(x, y, z) form of the view, half at(coordinate_t);
+            // half go through a view that is kept across operations, half through a fresh one
             bool va = ops_of(A.stack).lookup_va != nullptr && ((op.vseed >> 9) & 1) != 0;
+            bool held = ops_of(A.stack).hold_view != nullptr && ((op.vseed >> 10) & 1) != 0;
+            if (held && !A.view)
+                A.view = ops_of(A.stack).hold_view(A.obj);
+            if (held)
+                cnt.inc("probe.lookup_through_a_view_kept_across_operations");
             int rcode = guarded(
                 op,
                 [&] {
-                    if (va)
+                    if (held)
+                        ops_of(A.stack).held_lookup(A.view, x.data(), bits, va && ops_of(A.stack).lookup_va != nullptr);
+                    else if (va)
                         ops_of(A.stack).lookup_va(A.obj, x.data(), bits);
                     else
                         ops_of(A.stack).lookup(A.obj, x.data(), bits);
@@ -2203,13 +2314,13 @@ Plan gen_plan(const std::string &property, const std::string &profile, uint64_t 
         return gen_big_plan(property, seed, index, thorough, dis);
     if (profile == "hugesweep")
         return gen_huge_plan(property, seed, index, thorough, dis);
-    if (profile == "premain") {
+    if (profile == "premain" || profile == "postmain") {
         auto v = premain_plans();
         Plan p;
         if (!v.empty())
             p = v[index % v.size()];
         p.property = property;
-        p.profile = "premain";
+        p.profile = profile;
         return p;
     }
     Plan p;
@@ -2231,6 +2342,8 @@ Plan gen_plan(const std::string &property, const std::string &profile, uint64_t 
     {
         static const int fes[] = {FE_OVERFLOW, FE_INVALID, FE_DIVBYZERO, FE_UNDERFLOW | FE_INEXACT, FE_ALL_EXCEPT, FE_INEXACT};
         p.fe = rk.chance(0.25) ? fes[rk.below(6)] : 0;
+        static const int ens[] = {EINTR, EAGAIN, ERANGE, ENOMEM, EIO};
+        p.en = rk.chance(0.3) ? ens[rk.below(5)] : 0;
     }
     double w[OP_NKINDS] = {0};
     bool f_alloc = false, f_stream = false, f_cuda = false;
@@ -2239,27 +2352,27 @@ Plan gen_plan(const std::string &property, const std::string &profile, uint64_t 
     if (profile == "ownership" || profile == "conversion" || profile == "roundtrip")
         p.nice = rk.chance(0.5) ? 1 : 0; // lookups need configurations with a usable domain
     if (profile == "ownership") {
-        double ww[] = {3, 0.5, 4, 3, 2, 4, 2, 1.5, 0.7, 1.5, 1.5, 1, 0.3, 1.5, 2.5, 1.5, 0.4};
+        double ww[] = {3, 0.5, 4, 3, 2, 4, 2, 1.5, 0.7, 1.5, 1.5, 1, 0.3, 1.5, 2.5, 1.5, 0.4, 1.2};
         std::copy(ww, ww + OP_NKINDS, w);
         fault_run = rk.chance(0.5);
         f_alloc = fault_run;
         f_stream = fault_run && rk.chance(0.5);
         f_cuda = fault_run;
     } else if (profile == "conversion") {
-        double ww[] = {3, 0, 2, 0.7, 0.3, 0.5, 0.2, 6, 2, 0, 0, 0, 0, 0.7, 1.5, 0.5, 0};
+        double ww[] = {3, 0, 2, 0.7, 0.3, 0.5, 0.2, 6, 2, 0, 0, 0, 0, 0.7, 1.5, 0.5, 0, 0.4};
         std::copy(ww, ww + OP_NKINDS, w);
         fault_run = rk.chance(0.4);
         f_alloc = fault_run;
         f_cuda = fault_run;
     } else if (profile == "roundtrip") {
-        double ww[] = {3, 0, 2, 0.3, 0, 0.3, 0, 0.5, 0, 4, 4, 1, 3, 0.5, 1.0, 0.7, 1.5};
+        double ww[] = {3, 0, 2, 0.3, 0, 0.3, 0, 0.5, 0, 4, 4, 1, 3, 0.5, 1.0, 0.7, 1.5, 0.3};
         std::copy(ww, ww + OP_NKINDS, w);
     } else if (profile == "portability") {
-        double ww[] = {3, 0, 1.5, 0, 0, 0, 0, 0.3, 0, 4, 5, 0.5, 1.5, 0.5, 0, 0.3, 0.7};
+        double ww[] = {3, 0, 1.5, 0, 0, 0, 0, 0.3, 0, 4, 5, 0.5, 1.5, 0.5, 0, 0.3, 0.7, 0};
         std::copy(ww, ww + OP_NKINDS, w);
         p.vmode = VAL_FINITE;
     } else { // ub
-        double ww[] = {3, 0.3, 3, 1.5, 1, 1.5, 1, 1.5, 0.5, 1.5, 1.5, 0.7, 0.7, 1, 7, 1.0, 0.5};
+        double ww[] = {3, 0.3, 3, 1.5, 1, 1.5, 1, 1.5, 0.5, 1.5, 1.5, 0.7, 0.7, 1, 7, 1.0, 0.5, 0.8};
         std::copy(ww, ww + OP_NKINDS, w);
         lookups = true;
         p.nice = 1;
@@ -2598,6 +2711,34 @@ Plan gen_plan(const std::string &property, const std::string &profile, uint64_t 
             op.b = it->first;
             break;
         }
+        case OP_SWAP: {
+            std::vector<int> tg;
+            for (int i = 0; i < p.nslots; ++i)
+                if (i != src && gs[i].state == S_LIVE && gs[i].stack == gs[src].stack)
+                    tg.push_back(i);
+            if (tg.empty()) {
+                // make a partner first: a copy that is then written to
+                if (dst == src)
+                    dst = (dst + 1) % p.nslots;
+                Op cp;
+                cp.kind = OP_COPY_CTOR;
+                cp.a = dst;
+                cp.b = src;
+                cp.vseed = op.vseed ^ 5;
+                p.ops.push_back(cp);
+                gs[dst] = gs[src];
+                Op wr;
+                wr.kind = OP_WRITE;
+                wr.a = dst;
+                wr.vseed = rv.next() & 0xffffffffffffull;
+                p.ops.push_back(wr);
+                tg.push_back(dst);
+            }
+            op.a = src;
+            op.b = tg[rg.below(tg.size())];
+            std::swap(gs[op.a], gs[op.b]);
+            break;
+        }
         case OP_DESTROY:
             op.a = rg.chance(0.7) ? src : dst;
             gs[op.a] = GenSlot();
@@ -2856,7 +2997,31 @@ std::vector<Plan> premain_plans()
     return v;
 }
 
+// The mirror image: the phase AFTER main() has returned. The same fixed plans are executed in
+// main() (so that whatever the library creates lazily - function-local statics, thread_local
+// scratch buffers - exists), main() returns, the main thread's thread_local objects and every
+// static object constructed after the runner are destroyed, and then the runner's own
+// destructor executes the plans again: a field that is a static object may dump, convert or
+// copy itself from its destructor ("save on exit"). Results are printed from there.
+struct PostMain {
+    bool active = false;
+    uint64_t a = 0, b = 0;
+    int replay_index = -1;
+    std::string property;
+    Progress *prog = nullptr;
+    Disabled *dis = nullptr;
+    std::vector<uint64_t> obs_in_main;
+};
+PostMain *g_postmain = nullptr; // allocated in main(), never freed
+
+void postmain_phase();
+
 struct PreMainRunner {
+    ~PreMainRunner()
+    {
+        if (g_postmain && g_postmain->active)
+            postmain_phase();
+    }
     PreMainRunner()
     {
         static std::vector<PreMainEntry> store;
@@ -2873,6 +3038,67 @@ struct PreMainRunner {
     }
 };
 PreMainRunner g_premain_runner __attribute__((init_priority(60000)));
+
+void postmain_phase()
+{
+    PostMain &pm = *g_postmain;
+    Counters cnt;
+    if (!g_premain)
+        return;
+    if (pm.replay_index >= 0) {
+        if ((size_t)pm.replay_index < g_premain->size()) {
+            Plan p = (*g_premain)[(size_t)pm.replay_index].plan;
+            RunResult rr = run_plan(p, *pm.dis, cnt, pm.prog);
+            if (rr.ok && !pm.obs_in_main.empty() && rr.obs != pm.obs_in_main[0]) {
+                rr.ok = false;
+                rr.v.key = std::string("postmain-diverge:") + (p.ops[0].stack >= 0 ? g_stacks[p.ops[0].stack].id : "-") + ":" + OP_NAMES[p.ops.back().kind];
+                rr.v.detail = "the same plan observed different values inside main() and after main() had returned";
+            } else if (!rr.ok)
+                rr.v.key = "postmain-" + rr.v.key;
+            if (rr.ok)
+                std::printf("REPLAY ok obs=%016llx steps=%llu\n", (unsigned long long)rr.obs, (unsigned long long)rr.steps);
+            else
+                std::printf("REPLAY VIOL key=%s op=%d :: %s\n", rr.v.key.c_str(), rr.v.op, rr.v.detail.c_str());
+        }
+        std::fflush(stdout);
+        return;
+    }
+    uint64_t steps = 0;
+    for (uint64_t i = pm.a; i < pm.b; ++i) {
+        if (i >= g_premain->size()) {
+            std::printf("RUN %llu 0 0000000000000000 0000000000000000 0 ok\n", (unsigned long long)i);
+            continue;
+        }
+        Plan p = (*g_premain)[i].plan;
+        pm.prog->run = i;
+        pm.prog->seed = p.seed;
+        pm.prog->op = 0;
+        RunResult rr = run_plan(p, *pm.dis, cnt, pm.prog);
+        steps += rr.steps;
+        cnt.inc("probe.plan_executed_after_main_returned");
+        if (rr.ok && rr.obs != pm.obs_in_main[i - pm.a]) {
+            rr.ok = false;
+            rr.v.key = std::string("postmain-diverge:") + (p.ops[0].stack >= 0 ? g_stacks[p.ops[0].stack].id : "-") + ":" + OP_NAMES[p.ops.back().kind];
+            rr.v.detail = "the same plan observed different values inside main() and after main() had returned";
+            rr.v.op = -1;
+        } else if (!rr.ok)
+            rr.v.key = "postmain-" + rr.v.key;
+        if (rr.ok)
+            std::printf("RUN %llu %llu %016llx %016llx 1 ok\n", (unsigned long long)i, (unsigned long long)p.seed, (unsigned long long)rr.obs, (unsigned long long)rr.caseh);
+        else {
+            std::printf("RUN %llu %llu - - 0 VIOL key=%s op=%d :: %s\n", (unsigned long long)i, (unsigned long long)p.seed, rr.v.key.c_str(), rr.v.op, rr.v.detail.c_str());
+            cnt.inc("steps", steps);
+            std::printf("STATS %s\n", cnt.json().c_str());
+            std::printf("RESTART\n");
+            std::fflush(stdout);
+            _exit(0);
+        }
+    }
+    cnt.inc("steps", steps);
+    std::printf("STATS %s\n", cnt.json().c_str());
+    std::printf("DONE\n");
+    std::fflush(stdout);
+}
 
 // verdict for pre-main plan i: what it observed then, and whether the same plan observes the same now
 RunResult eval_premain(size_t i, Disabled &dis, Counters &cnt, Progress *prog)
@@ -2932,6 +3158,22 @@ int main(int argc, char **argv)
         }
         prog->run = 0;
         prog->seed = p.seed;
+        if (p.profile == "postmain" && p.index >= 0 && g_premain && (size_t)p.index < g_premain->size()) {
+            // in main(): once, so that lazily created library state exists; the verdict comes
+            // from the runner's destructor after main() has returned
+            g_postmain = new PostMain();
+            g_postmain->replay_index = p.index;
+            g_postmain->prog = prog;
+            g_postmain->dis = new Disabled(dis);
+            RunResult first = run_plan((*g_premain)[(size_t)p.index].plan, dis, cnt, prog);
+            if (!first.ok) {
+                std::printf("REPLAY VIOL key=%s op=%d :: %s\n", first.v.key.c_str(), first.v.op, first.v.detail.c_str());
+                return 0;
+            }
+            g_postmain->obs_in_main.push_back(first.obs);
+            g_postmain->active = true;
+            return 0;
+        }
         RunResult rr = (p.profile == "premain" && p.index >= 0) ? eval_premain((size_t)p.index, dis, cnt, prog) : run_plan(p, dis, cnt, prog);
         if (rr.ok)
             std::printf("REPLAY ok obs=%016llx steps=%llu\n", (unsigned long long)rr.obs, (unsigned long long)rr.steps);
@@ -2951,7 +3193,7 @@ int main(int argc, char **argv)
             total = alloc_total(thorough, dis);
         else if (profile == "bigsweep")
             total = big_items(property, thorough, dis).size() * 8;
-        else if (profile == "premain")
+        else if (profile == "premain" || profile == "postmain")
             total = g_premain ? g_premain->size() : 0;
         else
             sweep_items(profile, thorough, dis, total);
@@ -2971,6 +3213,32 @@ int main(int argc, char **argv)
         auto c = r.find(':');
         a = std::strtoull(r.c_str(), nullptr, 10);
         b = std::strtoull(r.c_str() + c + 1, nullptr, 10);
+    }
+    if (profile == "postmain") {
+        g_postmain = new PostMain();
+        g_postmain->a = a;
+        g_postmain->b = b;
+        g_postmain->prog = prog;
+        g_postmain->dis = new Disabled(dis);
+        for (uint64_t i = a; i < b; ++i) {
+            uint64_t o = 0;
+            if (g_premain && i < g_premain->size()) {
+                prog->run = i;
+                RunResult rr = run_plan((*g_premain)[i].plan, dis, cnt, prog);
+                o = rr.obs;
+                if (!rr.ok) {
+                    // (not expected: the same plans are judged by the premain profile)
+                    std::printf("RUN %llu 0 - - 0 VIOL key=%s op=%d :: %s\n", (unsigned long long)i, rr.v.key.c_str(), rr.v.op, rr.v.detail.c_str());
+                    std::printf("STATS %s\n", cnt.json().c_str());
+                    std::printf("RESTART\n");
+                    std::fflush(stdout);
+                    _exit(0);
+                }
+            }
+            g_postmain->obs_in_main.push_back(o);
+        }
+        g_postmain->active = true;
+        return 0; // the rest happens after main()
     }
     uint64_t steps = 0;
     for (uint64_t i = a; i < b; ++i) {
